@@ -144,6 +144,8 @@ def history_case(ctx, tm, S, rng):
         elif r < 0.68:
             # the range list the scale hands out is edited in place and passed to range() again
             ops.append(["range-edit-in-place", rng.choice([0, 1]), rng.choice([-250.0, 17.5, 1234.0, 3e-9])])
+        elif r < 0.695:
+            ops.append(["ticks", rng.choice([None, 2, 5, 10, 20])])  # asking for ticks changes nothing the caller set
         elif r < 0.71:
             ops.append(["interpolate-round-trip"])  # s.interpolate(s.interpolate()): sets what is already set
         elif r < 0.75:
@@ -178,6 +180,9 @@ def run_history(ctx, tm, S, case):
                     o.range(lst)
                     wi["range"] = list(lst)
                     ctx.path("range-list-edited-in-place-and-set-again")
+            elif op[0] == "ticks":
+                o.ticks(op[1]) if op[1] is not None else o.ticks()
+                ctx.path("ticks-in-history")
             elif op[0] == "interpolate-round-trip":
                 o.interpolate(o.interpolate())
                 ctx.path("interpolate-round-trip")
